@@ -62,7 +62,8 @@ Definition is_exported (a : ast) (n : str) : bool :=
 Definition spec_assign1 (a : ast) (n v : str) : ast :=
   mkast (aset (vars a) n (v, is_exported a n)) (ghost a) (acwd a) (aold a).
 
-Definition spec_export1 (a : ast) (n v : str) : ast :=
+(** putting a name into the environment (what cd does with PWD, and export before the repair) *)
+Definition spec_setenv1 (a : ast) (n v : str) : ast :=
   mkast (aset (vars a) n (v, true))
         (match vget a n with
          | Some (lv, false) => aset (ghost a) n lv
@@ -70,13 +71,17 @@ Definition spec_export1 (a : ast) (n v : str) : ast :=
          | None => adel (ghost a) n
          end) (acwd a) (aold a).
 
+Definition spec_export1 (fx : fixes) (a : ast) (n v : str) : ast :=
+  if fx_export fx then mkast (aset (vars a) n (v, true)) (adel (ghost a) n) (acwd a) (aold a)
+  else spec_setenv1 a n v.
+
 Definition spec_unset1 (a : ast) (n : str) : ast :=
   mkast (adel (vars a) n) (adel (ghost a) n) (acwd a) (aold a).
 
 Fixpoint spec_assign (a : ast) (ps : list (str * str)) : ast :=
   match ps with [] => a | (n, v) :: r => spec_assign (spec_assign1 a n v) r end.
-Fixpoint spec_export (a : ast) (ps : list (str * str)) : ast :=
-  match ps with [] => a | (n, v) :: r => spec_export (spec_export1 a n v) r end.
+Fixpoint spec_export (fx : fixes) (a : ast) (ps : list (str * str)) : ast :=
+  match ps with [] => a | (n, v) :: r => spec_export fx (spec_export1 fx a n v) r end.
 
 (** what a child started with the per-command pairs [ps] finds under the name m *)
 Definition spec_child (a : ast) (ps : alist) (m : str) : option str :=
@@ -86,13 +91,6 @@ Definition spec_child (a : ast) (ps : alist) (m : str) : option str :=
   end.
 
 (* ---- read: cut the line at every separator; the last name gets the rest verbatim *)
-Fixpoint break_sep (seps : str) (s : str) : str * option str :=
-  match s with
-  | [] => ([], None)
-  | c :: r => if memb c seps then ([], Some r)
-              else let (f, o) := break_sep seps r in (c :: f, o)
-  end.
-
 (** k = number of names still to serve (k >= 1 for a useful call); [None] = line exhausted *)
 Fixpoint cut_fields (seps : str) (k : nat) (s : option str) : list str :=
   match k with
@@ -163,7 +161,7 @@ Definition spec_cd (w : world) (a : ast) (arg : option str) : ast * bool :=
       | None => (a, false)
       | Some d =>
           if str_eqb (acwd a) d then (a, true)
-          else let a1 := spec_export1 a s_PWD d in
+          else let a1 := spec_setenv1 a s_PWD d in
                (mkast (vars a1) (ghost a1) d (acwd a), true)
       end
   end.
@@ -174,12 +172,12 @@ Inductive sout :=
 | SChild (argv : list str) (view : str -> option str) (dir : str)
 | SVal (v : option str).
 
-Definition spec_step (w : world) (a : ast) (o : op) : ast * sout :=
+Definition spec_step (fx : fixes) (w : world) (a : ast) (o : op) : ast * sout :=
   match o with
   | Assign ps => (spec_assign a (map asg_pair ps), SStatus true)
   | Prefixed ps prog args =>
       (a, SChild (prog :: map snd args) (spec_child a (map asg_pair ps)) (acwd a))
-  | Export ps => (spec_export a (map asg_pair ps), SStatus true)
+  | Export ps => (spec_export fx a (map asg_pair ps), SStatus true)
   | Unset n => (spec_unset1 a n, SStatus true)
   | Read ps names line => (spec_read a (map asg_pair ps) names line, SStatus true)
   | Cd arg => let (a', ok) := spec_cd w a arg in (a', SStatus ok)
@@ -219,16 +217,12 @@ Definition wf_op (o : op) : bool :=
 
 (* ------------------------------------------------------------------ known deviation classes *)
 Inductive kclass :=
-| KPrefixOverExported   (* NAME=v prog, NAME currently exported: the child gets both entries *)
 | KReadIfsShadowed      (* read takes IFS from the stale shell-local value an export left behind *)
 | KReadRejoined         (* the remainder is rebuilt with blanks instead of kept verbatim *)
-| KCdHomeMissing        (* cd without argument, HOME exported but not an existing path: panic *)
 | KCdHomeNotExported.   (* cd without argument, HOME unset or only a shell variable *)
 
-Definition known (w : world) (a : ast) (o : op) : option kclass :=
+Definition known (fx : fixes) (a : ast) (o : op) : option kclass :=
   match o with
-  | Prefixed ps _ _ =>
-      if existsb (fun p => is_exported a (a_name p)) ps then Some KPrefixOverExported else None
   | Read ps names line =>
       let pp := map asg_pair ps in
       let shadow :=
@@ -241,6 +235,7 @@ Definition known (w : world) (a : ast) (o : op) : option kclass :=
         | _, _ => false
         end in
       if shadow then Some KReadIfsShadowed
+      else if fx_read fx then None
       else
         let seps := spec_seps a pp in
         match rest_after seps (length (read_names names)) (Some (input_line line)) with
@@ -249,32 +244,29 @@ Definition known (w : world) (a : ast) (o : op) : option kclass :=
         | None => None
         end
   | Cd None =>
-      match vget a s_HOME with
-      | Some (_, true) =>
-          match cd_target a None with
-          | Some full => if w_exists w full then None else Some KCdHomeMissing
-          | None => None
-          end
-      | _ => Some KCdHomeNotExported
-      end
+      if fx_cd fx then None
+      else match vget a s_HOME with
+           | Some (_, true) => None
+           | _ => Some KCdHomeNotExported
+           end
   | _ => None
   end.
 
-Definition is_known (w : world) (a : ast) (o : op) : bool :=
-  match known w a o with Some _ => true | None => false end.
+Definition is_known (fx : fixes) (a : ast) (o : op) : bool :=
+  match known fx a o with Some _ => true | None => false end.
 
 (** the specification run over a history, with the classes met on the way *)
-Fixpoint spec_hist (w : world) (a : ast) (ops : list op) : ast * list sout :=
+Fixpoint spec_hist (fx : fixes) (w : world) (a : ast) (ops : list op) : ast * list sout :=
   match ops with
   | [] => (a, [])
-  | o :: r => let (a1, so) := spec_step w a o in
-              let (a2, sos) := spec_hist w a1 r in (a2, so :: sos)
+  | o :: r => let (a1, so) := spec_step fx w a o in
+              let (a2, sos) := spec_hist fx w a1 r in (a2, so :: sos)
   end.
 
-Fixpoint known_hist (w : world) (a : ast) (ops : list op) : bool :=
+Fixpoint known_hist (fx : fixes) (w : world) (a : ast) (ops : list op) : bool :=
   match ops with
   | [] => false
-  | o :: r => is_known w a o || known_hist w (fst (spec_step w a o)) r
+  | o :: r => is_known fx a o || known_hist fx w (fst (spec_step fx w a o)) r
   end.
 
 (** the abstraction function *)
@@ -282,3 +274,12 @@ Definition abs (c : st) : ast :=
   mkast (map (fun p => (fst p, (snd p, true))) (envp c) ++
          map (fun p => (fst p, (snd p, false))) (locals c))
         (locals c) (cwd c) (prev c).
+
+(** does the operation assign, export, unset or read into the name? *)
+Definition touches (n : str) (o : op) : bool :=
+  match o with
+  | Assign ps | Export ps => existsb (fun p => str_eqb (a_name p) n) ps
+  | Unset m => str_eqb m n
+  | Read _ names _ => existsb (fun m => str_eqb m n) (read_names names)
+  | _ => false
+  end.
